@@ -14,11 +14,12 @@ CFGS = {
     'default_aligned': ['-DGLM_FORCE_DEFAULT_ALIGNED_GENTYPES', '-DGLM_FORCE_INTRINSICS', '-mavx2', '-DC16_EXPECT_ALIGNED', '-DC16_EXPECT_DEFAULT_ALIGNED'],
     'default_aligned+messages': ['-DGLM_FORCE_MESSAGES', '-DGLM_FORCE_DEFAULT_ALIGNED_GENTYPES', '-DGLM_FORCE_INTRINSICS', '-mavx2', '-DC16_EXPECT_ALIGNED', '-DC16_EXPECT_DEFAULT_ALIGNED'],
     'wxyz+avx2': ['-DGLM_FORCE_QUAT_DATA_WXYZ', '-DC16_EXPECT_WXYZ', '-DGLM_FORCE_INTRINSICS', '-mavx2', '-DC16_EXPECT_ALIGNED'],
+    'cxx98+intrinsics-clang': ['-DGLM_FORCE_CXX98', '-DGLM_FORCE_INTRINSICS', '-mavx2', '-DC16_EXPECT_ALIGNED'],
     'swizzle+avx2': ['-DGLM_FORCE_SWIZZLE', '-DGLM_FORCE_INTRINSICS', '-mavx2', '-DC16_EXPECT_ALIGNED'],
 }
 for n, f in ISA:
     CFGS['intrinsics-' + n] = ['-DGLM_FORCE_INTRINSICS', f, '-DC16_EXPECT_ALIGNED']
-QUICK = ['default', 'intrinsics-avx2', 'wxyz', 'xyzw_only', 'size_t_length', 'swizzle+avx2', 'default_aligned+messages']
+QUICK = ['default', 'intrinsics-avx2', 'wxyz', 'xyzw_only', 'size_t_length', 'swizzle+avx2', 'default_aligned+messages', 'wxyz+avx2', 'cxx98+intrinsics-clang']
 
 
 def c16_prebuild(stage, pid, tier):
@@ -32,7 +33,7 @@ def SPEC(tier):
     names = sorted(CFGS) if tier == 'thorough' else QUICK
     stages = []
     for n in names:
-        cmd = ['clang++' if n.startswith('swizzle+') else 'g++', '-O1'] + props.vlib.COMMON
+        cmd = ['clang++' if (n.startswith('swizzle+') or n.endswith('-clang')) else 'g++', '-O1'] + props.vlib.COMMON
         st = Stage(n, ['props/C16_layout.cpp'], cmd=cmd, flags=CFGS[n] + ['-DC16_CFG="%s"' % n], deps=['gen/c16_typedefs.py'])
         st.prebuild = c16_prebuild
         stages.append(st)
